@@ -1,6 +1,8 @@
 package main
 
 import (
+	"sync/atomic"
+	"errors"
 	"encoding/hex"
 	"fmt"
 	"reflect"
@@ -53,7 +55,7 @@ func (h *heldHandler) ServeDIAM(c diam.Conn, m *diam.Message) {
 	o.active--
 	o.mu.Unlock()
 	if cmd == "P" {
-		panic("scripted handler panic")
+		scriptedPanic()
 	}
 }
 
@@ -658,5 +660,30 @@ func init() {
 	executors["conn serve"] = execConnServe
 	for _, op := range []string{"serve", "multi", "faults", "faults2", "closenotify", "cnall3", "cnall4", "cnall5", "cnall6"} {
 		connGens[op] = genConnServe
+	}
+}
+
+// scriptedPanic: handlers do not only panic with strings. The value rotates through the kinds a
+// Go program produces: a string, an error value, a runtime error, and values of uncomparable
+// dynamic type (an error declared as a slice, a map)
+type sliceErr []string
+
+func (e sliceErr) Error() string { return "slice error" }
+
+var scriptedPanicN uint32
+
+func scriptedPanic() {
+	switch atomic.AddUint32(&scriptedPanicN, 1) % 5 {
+	case 0:
+		panic("scripted handler panic")
+	case 1:
+		panic(sliceErr{"scripted", "handler", "panic"})
+	case 2:
+		panic(errors.New("scripted handler panic"))
+	case 3:
+		panic(map[string]int{"scripted": 1})
+	default:
+		var m map[string]int
+		m["nil map write"] = 1
 	}
 }
